@@ -274,10 +274,24 @@ class State(object):
             return (3, repr(t))
         return (4, repr(t))
 
+    def _top_bit_test(self, a, b):
+        """(x & m) compared with 0, m a power of two and 0 <= x < 2m: the test is on x's top bit -> (x, m), else None."""
+        for t, z in ((a, b), (b, a)):
+            if z == ('c', 0) and t[0] == 'and' and len(t) == 3:
+                for x, m in ((t[1], t[2]), (t[2], t[1])):
+                    if m[0] == 'c' and m[1] > 0 and (m[1] & (m[1] - 1)) == 0 and x[0] != 'c':
+                        d = self.dom(x)
+                        if d.lo >= 0 and d.hi < 2 * m[1]:
+                            return x, m[1]
+        return None
+
     def union(self, a, b):
         a, b = self.canon(a), self.canon(b)
         if a == b:
             return True
+        tb = self._top_bit_test(a, b)
+        if tb is not None:
+            return self.refine(tb[0], Dom(0, tb[1] - 1))
         if a[0] == 'cat' and b[0] == 'cat' or (a[0] == 'cat' and b[0] in ('in', 'byte')) or (b[0] == 'cat' and a[0] in ('in', 'byte')):
             n = max(len(a[1]) if a[0] == 'cat' else 1, len(b[1]) if b[0] == 'cat' else 1)
             ok = True
@@ -325,6 +339,9 @@ class State(object):
         a, b = self.canon(a), self.canon(b)
         if a == b:
             return False
+        tb = self._top_bit_test(a, b)
+        if tb is not None:
+            return self.refine(tb[0], Dom(tb[1], 2 * tb[1] - 1))
         if is_const(b) and not is_const(a):
             if a[0] in ('add', 'sub', 'mul', 'neg'):
                 # c*x + k != v  <=>  x != (v - k)/c  (vacuous when c does not divide): lets interval ends move
